@@ -613,9 +613,12 @@ class Node:
         if isinstance(child, self._tree.__class__):
             if deep is None:
                 deep = True
-            topnodes = child._root.children
-            if isinstance(before, (int, Node)) or before is True:
+            # Iterate a copy: the source tree must not be modified
+            topnodes = list(child._root.children)
+            if before is True or (isinstance(before, int) and before is not False):
+                # All nodes are inserted at the same index: reverse to keep order
                 topnodes.reverse()
+            n = None
             for n in topnodes:
                 self.add_child(n, before=before, deep=deep)
             return n  # need to return a node
